@@ -105,7 +105,13 @@ func (p *Parser) parseHeader(data []byte) (header *parser.PacketHeader, buf []by
 		}
 
 		header.Namespace = string(data[:i])
-		data = data[i+1:]
+		if i < len(data) {
+			// Skip the comma.
+			data = data[i+1:]
+		} else {
+			// Namespace is not terminated with a comma. There is no payload.
+			data = data[i:]
+		}
 	} else {
 		header.Namespace = "/"
 	}
